@@ -177,6 +177,8 @@ CORPUS_MASTERS = [
     ("loose", [s_("s", [d_("a", "int")]), s_("s", [d_("b", "int"), s_("t", [d_("c", "int")])]), d_("a", "int", dis=True)], "s.b = 2\n"),
     # a non-multiple scope written in two blocks, the later one declaring names from the identifier edge set; also inside
     # the elements of a multiple scope (seeded change C18/m2)
+    ("loose", [s_("s", [d_("c", "path", dflt="None"), d_("c", "strings", mult=True, dis=True, dflt="Auto")], mult=True, opt=True)],
+     "s { c = /a/b }\ns { }\n"),
     ("split", [s_("s", [d_("a", "str")]), s_("s", [d_("__x", "int"), d_("b", "int")]),
                s_("t", [s_("c", [d_("a", "str")]), s_("c", [d_("__phil_x", "int"), d_("x__", "int")])], mult=True)],
      "t { c.a = p }\nt { c.__phil_x = 3 }\n"),
@@ -186,6 +188,8 @@ CORPUS_MASTERS = [
 # parsed documents extracted as they are (no fetch).  Repaired in 3d13dfd: a disabled object in a LATER block of a scope
 # no longer makes __phil_join__ raise; the scope / the .multiple list of the earlier block stays
 DIRECT_MASTERS = [
+    # repaired in ceef076: a disabled .multiple object after an active non-multiple namesake holding None
+    [d_("c", "path", dflt="None"), d_("c", "none", mult=True, dis=True, dflt="x")],
     [s_("s", [s_("t", [d_("a", "none")])]), s_("s", [s_("t", [d_("b", "none")], dis=True)])],
     [s_("s", [s_("t", [d_("a", "none")])]), s_("s", [d_("t", "none", dis=True)])],
     [s_("s", [d_("m", "int", mult=True)]), s_("s", [d_("m", "int", dis=True)])],
